@@ -4,7 +4,7 @@
 Each /verif/selftest/mutants/*.patch is applied to a scratch git worktree of /repo (outside /repo and
 /verif, removed afterwards); the mutated tree must still build and pass the repository's tests, and the
 named property's check must exit 1 (kind must-fail, default) or 0 (kind must-pass).
-Header lines of a patch file:  # property: C08   # expect: <substring of a failed obligation>   # kind: must-pass
+Header lines of a patch file:  # property: C08   # expect: <substring of a failed obligation>   # kind: must-pass   # tier: thorough
 usage: run.py [--jobs N] [filter ...]
 """
 import glob, os, re, subprocess, sys, tempfile, shutil, json, concurrent.futures as cf
@@ -14,7 +14,7 @@ REPO = os.environ.get("VERIF_REPO", "/repo")
 ENV = dict(os.environ, GOFLAGS="-mod=mod", GOPROXY="off", GOSUMDB="off", GOTOOLCHAIN="local")
 
 def run_one(patch):
-    meta = {"property": None, "expect": None, "kind": "must-fail", "tests": "yes"}
+    meta = {"property": None, "expect": None, "kind": "must-fail", "tests": "yes", "tier": "quick"}
     if os.path.basename(patch) == "patch.diff":
         mj = json.load(open(os.path.join(os.path.dirname(patch), "meta.json")))
         meta["property"] = mj["property"]
@@ -42,7 +42,7 @@ def run_one(patch):
                     return name, "BROKEN", "mutant does not build: " + b.stderr[-300:]
                 suite = " [also killed by the test suite]"
         env = dict(ENV, VERIF_REPO=wt, VERIF_OUT=out)
-        r = subprocess.run([os.path.join(VERIF, "bin", "govc"), "check", meta["property"]], env=env, capture_output=True, text=True, cwd=VERIF)
+        r = subprocess.run([os.path.join(VERIF, "bin", "govc"), "check", "--tier", meta["tier"], meta["property"]], env=env, capture_output=True, text=True, cwd=VERIF)
         viol = [l for l in r.stdout.splitlines() if l.startswith("VIOLATION") or l.startswith("failed obligation")]
         if meta["kind"] == "must-pass":
             ok = r.returncode == 0
